@@ -207,8 +207,7 @@ def cells(tier):
     out = []
     combos = [(a, b) for a in names for b in names]
     if tier != "quick":
-        combos += [(a, b, c) for a in ("ok", "error", "report-ok", "printrun-error")
-                   for b in names for c in ("ok", "ok-with-report", "bang")]
+        combos += [(a, b, c) for a in names for b in names for c in names]
     for combo in combos:
         out.append(Cell("statements=" + ",".join(combo), _make(combo), budget_s=120,
                         must_reach=("done",), entry="PrintrunWriter.write"))
